@@ -79,12 +79,17 @@ class P(Prop):
             for t in TIERS:
                 for n in speeds:
                     out.append({"stream": "limit", "tier": t, "speed": n, "kind": "engine" if (n + len(t)) % 3 else "cogas"})
+                    if n % 5 == 0:      # a NOx curve handed over as well: with a tier method the limit still applies
+                        out[-1]["curves"] = [["NOX", [[Fraction(1, 4), Fraction(9)], [Fraction(1), Fraction(7)]]], ["CO", [[Fraction(1, 2), Fraction(2)]]]]
         n = self.n_cases(tier, override)
         for _ in range(n):
             u = rng.random()
             if u < 0.25:
                 out.append({"stream": "limit", "tier": rng.choice(TIERS), "speed": rng.choice([rng.randint(1, 2000), rng.randint(1, 16000) / 8]),
                             "kind": rng.choice(["engine", "cogas"])})
+                if rng.random() < 0.4:
+                    pts = [[Fraction(k, 8), Fraction(rng.randint(1, 320), 16)] for k in sorted(rng.sample(range(0, 9), rng.randint(1, 4)))]
+                    out[-1]["curves"] = [["NOX", pts]] + ([["CH4", [[Fraction(1, 2), Fraction(3)]]]] if rng.random() < 0.5 else [])
             else:
                 ncur = rng.randint(1, 3)
                 curves = []
@@ -314,6 +319,8 @@ class P(Prop):
             t.append("cogas-with-turbine-power-curves")
         if case["stream"] == "limit":
             t.append("slow(<=130)" if float(case["speed"]) <= 130 else "power-law(>130)")
+            if case.get("curves"):
+                t.append("tier-method-with-a-nox-curve-given-too")
         else:
             if any(len(p) == 1 for _, p in case["curves"]):
                 t.append("single-value-curve")
